@@ -942,8 +942,10 @@ def _m_c08(rec, rnd):
         rec["prefixes"][-1] = rec["prefixes"][-1] + [65]
         return True
     if rec.get("op") == "print" and 92 in rec["s"]:
-        rec["body"] = [92 if c == 92 else c for c in rec["s"]]   # what printing the backslash raw would give
-        return rec["body"] != rec["s"] or True
+        # (printing a lone backslash raw is a legitimate Display form whenever it still round-trips - benign set B3 -
+        # so the corruption must be one no correct implementation could produce: a character too many)
+        rec["body"] = list(rec["body"]) + [65]
+        return True
     return False
 
 
